@@ -399,6 +399,31 @@ pub fn msg_6492(
     })
 }
 
+/// An issue or revoke request of the harness' child for one given key.
+pub fn msg_6492_for_key(
+    kind: &str, client: &Client, sender: &str, class_name: &str,
+    key: &rpki::crypto::KeyIdentifier,
+) -> Result<provisioning::Message, String> {
+    let sender = rpki::ca::idexchange::SenderHandle::from_str(sender)
+        .map_err(|e| e.to_string())?;
+    let recipient = rpki::ca::idexchange::RecipientHandle::from_str(
+        fworld::CA
+    ).unwrap();
+    let class = ResourceClassName::from(class_name);
+    Ok(match kind {
+        "issue" => provisioning::Message::issue(
+            sender, recipient,
+            IssuanceRequest::new(
+                class, RequestResourceLimit::new(),
+                client.csr(key, fworld::CHILD)?,
+            ),
+        ),
+        _ => provisioning::Message::revoke(
+            sender, recipient, RevocationRequest::new(class, *key),
+        ),
+    })
+}
+
 /// An RFC 8181 query of the harness' publisher.
 pub fn msg_8181(rng: &mut Rng, publisher: &str) -> publication::Message {
     let base = format!("{}{}/", aworld::RSYNC_BASE, publisher);
